@@ -42,7 +42,8 @@ static struct th {
   uint64_t yield_epoch;
   void* (*fn)(void*);
   void* arg;
-  uint32_t nop, run, spin_rounds;
+  uint32_t nop, run, spin_rounds, newaddr, bloom_reset;
+  uint64_t bloom[1024];  // addresses touched since the last progress (65536 bits)
   uint64_t seen_epoch;
   uintptr_t sp;
   void* pw_addr;
@@ -146,6 +147,23 @@ static void progress(void) {
   progress_epoch++;
   T[me].nop = 0;
   T[me].spin_rounds = 0;
+  T[me].bloom_reset = 1;
+}
+// a thread that touches addresses it has not touched since the last progress is
+// computing (e.g. filling a buffer), not spinning
+static inline void touch(struct th* t, void* addr) {
+  if (t->bloom_reset) {
+    memset(t->bloom, 0, sizeof t->bloom);
+    t->bloom_reset = 0;
+    t->newaddr = 0;
+  }
+  uint64_t h = ((uintptr_t)addr >> 3) * 0x9E3779B97F4A7C15ull;
+  uint32_t bit = (uint32_t)(h >> 48);
+  uint64_t m = 1ull << (bit & 63);
+  if (!(t->bloom[bit >> 6] & m)) {
+    t->bloom[bit >> 6] |= m;
+    t->newaddr++;
+  }
 }
 void fmc_progress(void) { if (fmc_is_exploring) progress(); }
 
@@ -415,7 +433,14 @@ static void sched_point(void* addr, int sz, int w, int always, void* pc, int flu
   if (fmc_tso && !flush && t->sb.n && others_alive()) {
     if (choose(K_COMMIT, 3, 0, 0, sh) == 1) sb_flush(t);
   }
+  if (addr) touch(t, addr);
   int nop_hit = ++t->nop > fmc_L0;
+  if (nop_hit && t->newaddr) {  // still reaching new memory: not a spin, restart the window
+    t->newaddr = 0;
+    t->nop = 0;
+    nop_hit = 0;
+    if (t->run > fmc_L) memset(t->bloom, 0, sizeof t->bloom);
+  }
   if (nop_hit || ++t->run > fmc_L) {
     t->run = 0;
     TRC("[%lu] T%d forced yield (%s)\n", (unsigned long)TR->steps, me, nop_hit ? "no progress" : "time slice");
@@ -616,11 +641,13 @@ int epoll_wait(int ep, struct epoll_event* ev, int n, int to) {
     r = syscall(SYS_epoll_wait, ep, ev, n, 0);
   }
   if (r > 0) progress();
+  if (fmc_is_exploring) for (int i = 0; i < r; i++) TRC("[%lu] T%d epoll_wait -> fd %d events %x\n", (unsigned long)TR->steps, me, ev[i].data.fd, ev[i].events);
   return r;
 }
 int epoll_ctl(int ep, int op, int fd, struct epoll_event* e) {
   sched_point(0, 0, 0, 1, __builtin_return_address(0), 1, 0);
   int r = syscall(SYS_epoll_ctl, ep, op, fd, e);
+  if (fmc_is_exploring) TRC("[%lu] T%d epoll_ctl op %d fd %d events %x -> %d errno %d\n", (unsigned long)TR->steps, me, op, fd, e ? e->events : 0, r, r ? errno : 0);
   if (fmc_is_exploring) progress();
   return r;
 }
@@ -673,6 +700,8 @@ static void install_altstack(void) {
 }
 void fmc_child_setup(void) {
   fmc_in_child = 1;
+  // descriptor numbers must be a function of the execution, not of the worker process
+  syscall(SYS_close_range, 3, ~0u, 0);
   G = mmap(0, sizeof(gran_t) * GRAN_SLOTS, PROT_READ | PROT_WRITE, MAP_PRIVATE | MAP_ANONYMOUS | MAP_NORESERVE, -1, 0);
   install_altstack();
   struct sigaction sa;
